@@ -70,6 +70,8 @@ thread_local! {
     pub static MAX_STEPS_SEEN: std::cell::Cell<u64> = const { std::cell::Cell::new(0) };
     pub static TOTAL_CALLS: std::cell::Cell<u64> = const { std::cell::Cell::new(0) };
     pub static LAST_STEPS: std::cell::Cell<u64> = const { std::cell::Cell::new(0) };
+    pub static LAST_ZERO_WIDTH: std::cell::Cell<u64> = const { std::cell::Cell::new(0) };
+    pub static ZERO_WIDTH_LIMIT: std::cell::Cell<u64> = const { std::cell::Cell::new(0) };
 }
 
 pub fn install_panic_hook() {
@@ -111,10 +113,14 @@ pub fn short_site(loc: &str) -> String {
 pub fn guarded<T>(f: impl FnOnce() -> T) -> Result<T, Fail> {
     let limit = FUEL_LIMIT.with(|l| l.get());
     regexml::verif::set_fuel(limit);
+    regexml::verif::take_zero_width_max();
+    regexml::verif::set_zero_width_limit(ZERO_WIDTH_LIMIT.with(|l| l.get()));
     let r = catch_unwind(AssertUnwindSafe(f));
+    regexml::verif::set_zero_width_limit(0);
     let steps = regexml::verif::steps();
     regexml::verif::set_fuel(0);
     LAST_STEPS.with(|l| l.set(steps));
+    LAST_ZERO_WIDTH.with(|l| l.set(regexml::verif::take_zero_width_max()));
     MAX_STEPS_SEEN.with(|m| {
         if steps > m.get() {
             m.set(steps)
@@ -127,10 +133,25 @@ pub fn guarded<T>(f: impl FnOnce() -> T) -> Result<T, Fail> {
             if payload.downcast_ref::<regexml::verif::FuelExhausted>().is_some() {
                 return Err(Fail::Fuel);
             }
+            // only armed by C06, which looks at last_zero_width() before anything else
+            if payload.downcast_ref::<regexml::verif::ZeroWidthExceeded>().is_some() {
+                return Err(Fail::Fuel);
+            }
             let (loc, msg) = LAST_PANIC.with(|p| p.borrow_mut().take()).unwrap_or_default();
             Err(Fail::Panic { site: short_site(&loc), msg })
         }
     }
+}
+
+/// hook H4: the largest number of zero-width iterations performed by one repeat iterator during
+/// the last guarded call
+pub fn last_zero_width() -> u64 {
+    LAST_ZERO_WIDTH.with(|l| l.get())
+}
+
+/// arm (0 = disarm) the per-iterator limit on zero-width iterations for the following guarded calls
+pub fn set_zero_width_limit(n: u64) {
+    ZERO_WIDTH_LIMIT.with(|l| l.set(n));
 }
 
 pub fn last_steps() -> u64 {
